@@ -643,14 +643,15 @@ def validate_events(ctx, events, tag, chunk=1500, max_workers=12):
 _WEIGHTS_CHECKED = set()
 
 
-def _needs_flat(f):
+def _needs_flat(f, variant=0):
+    """matrix operators (composition with a matrix, quadratic forms built on MatrixOperator) need a one-axis space"""
     if f['op'] == 'Comp':
         return True
     if f['op'] == 'Quad' and f['v']:
         d = frv(f['v'])
-        if not all(t == d[0] for t in d):
+        if variant or not all(t == d[0] for t in d):
             return True
-    return any(_needs_flat(a) for a in f['args'])
+    return any(_needs_flat(a, variant) for a in f['args'])
 
 
 class Built(object):
@@ -659,7 +660,7 @@ class Built(object):
     def __init__(self, sp, f, variant=0, factory=None, layout=0):
         self.sp, self.f, self.variant = sp, f, variant
         # operators that need a one-axis tensor space (matrices) keep the flat layout
-        if layout and any(o == 'Comp' or (o == 'Quad') for o in ops_of(f)) and _needs_flat(f):
+        if layout and _needs_flat(f, variant):
             layout = 0
         self.layout = layout
         self.space = build_space(sp, layout)
